@@ -7,4 +7,7 @@ mkdir -p .work evidence replays
 ( cd coq && coq_makefile -f _CoqProject -o Makefile >/dev/null && timeout 3000 make -j16 )
 [ -f harness/Cargo.lock ] || cp /repo/Cargo.lock harness/Cargo.lock
 ( cd harness && cargo build --release --offline )
+# C19: first build of /repo's command-line tool (--features cli) into .work/cli-target and of the loader
+# environment .work/cli-env, so that the quick check only does an incremental build
+python3 -c "import sys; sys.path.insert(0, 'lib'); import vcheck; ok, err, _ = vcheck.pre_cli(); print(err, end=''); sys.exit(0 if ok else 1)"
 echo "setup done"
